@@ -131,6 +131,30 @@ pub fn run(ctx: &mut Ctx) {
                 check_spec(ctx, &s, "add_salt");
             }
         }
+        // 1b. consecutive proportional saltings of digest-equal but differently sized forms (the salt is
+        //     sized from the serialized size of the very envelope being salted)
+        {
+            let forms: Vec<(&str, Envelope)> = vec![("full", base.clone()), ("elided", base.elide()), ("compressed", base.compress().unwrap_or(base.elide())), ("full-again", base.clone())];
+            let mut order: Vec<usize> = (0..forms.len()).collect();
+            rng.shuffle(&mut order);
+            for i in order {
+                let (label, f) = &forms[i];
+                let fsize = env_bytes(f).len();
+                let (lo, hi) = doc_range(fsize);
+                ctx.eval();
+                ctx.count("consecutive_form_saltings");
+                let s = f.add_salt();
+                let old: HashSet<D32> = f.assertions().iter().map(d32).collect();
+                for a in s.assertions() {
+                    if !old.contains(&d32(&a)) {
+                        let l = a.as_object().and_then(|o| o.extract_subject::<Salt>().ok()).map(|x| x.len());
+                        if !matches!(l, Some(l) if l >= lo && l <= hi) {
+                            ctx.violation("add_salt/length-after-other-form", &format!("{} form of {} bytes got a salt of {:?} bytes right after salting another form of the same digest; documented range {}..={}", label, fsize, l, lo, hi), replay());
+                        }
+                    }
+                }
+            }
+        }
         // 2. add_salt_with_len
         for c in [0usize, 1, 7, 8, 9, 16, 33, 1000] {
             ctx.eval();
